@@ -446,6 +446,22 @@ def link_walk(ctx, rr):
                     if not okd:
                         rr.fail(ctx.finding('R-LINK-WALK', dd, y, 'deduped_link_nodes_iter yields `%s` without recording it as seen: the same neighbour met again further down the list is '
                                             'handed out a second time, so distinct-neighbour counts (indegree, cited webentities) are too high' % ast.unparse(y.value)[:30], stmt='dedupe memory'))
+    if not seen_sets:
+        # no set at all: telling "met before" from "new" over an unordered list needs a memory that grows with the list.  A walk that yields inside
+        # its loop, builds no container and delegates to nothing but the link node's own accessors can only compare with a bounded number of
+        # earlier targets (the previous one, say) and hands a neighbour out again when its stubs are not adjacent.
+        CONT = ('set', 'dict', 'list', 'frozenset', 'OrderedDict', 'defaultdict', 'Counter', 'deque', 'bytearray')
+        has_cont = any(isinstance(x, (ast.Set, ast.SetComp, ast.Dict, ast.DictComp, ast.List, ast.ListComp)) for x in ast.walk(dd.node)) or \
+            any(isinstance(c.func, ast.Name) and c.func.id in CONT or isinstance(c.func, ast.Attribute) and c.func.attr in CONT + ('fromkeys',) for c in P.own(dd, ast.Call))
+        NODE_OPS = ('target', 'has_previous', 'read_previous', 'read', 'node', 'next', 'previous', 'weight', 'block')
+        delegates = any(not (isinstance(c.func, ast.Attribute) and c.func.attr in NODE_OPS)
+                        and not (isinstance(c.func, ast.Name) and (c.func.id.endswith(('Exception', 'Error')) or c.func.id == 'LinkStoreNode')) for c in P.own(dd, ast.Call))
+        loops_y = [y for lp in P.own(dd, (ast.While, ast.For)) for y in ast.walk(lp) if isinstance(y, ast.Yield)]
+        if loops_y and not has_cont and not delegates:
+            rr.ob(ctx.where(dd, loops_y[0]), 'deduped_link_nodes_iter keeps a growing memory of the targets it handed out', ok=False)
+            rr.fail(ctx.finding('R-LINK-WALK', dd, loops_y[0], 'deduped_link_nodes_iter yields inside its walk but keeps no container of the targets already handed out (only scalars): '
+                                'a neighbour whose stubs are not adjacent in the list is handed out again, so distinct-neighbour counts and the deduplicated link enumeration '
+                                'disagree with the other direction', stmt='dedupe memory'))
     w = P.method('LinkStore', 'weighted_link_nodes_iter')
     wrows = tables(ctx, w, iters=2, keep=lambda n_, c: n_ in ('read_previous', 'has_previous'))
     okw = True
